@@ -15,7 +15,8 @@ RULE = (
     'Metamorphic. Hypothesis draws a start mode, register contents inside '
     'the documented ranges on fine grids (hue -360..720 step 0.25, percentages '
     'step 0.1, raw 0..65535, times and durations on a 1 ms grid up to 20 s '
-    'and long ones (65.535 s, minutes, hours, up to 10^8 ms), kelvin '
+    'and long ones (65.535 s, minutes, hours, up to 10^8 ms, 2^32 ms and '
+    'beyond), kelvin '
     '1500..9000 incl. halves) and a chain of 1..4 `units` statements (all six '
     'transitions and the identity). Script A sends `set "A"` / `wait` without '
     'the chain, script B with it: the transmitted colour must agree within 1 '
@@ -65,7 +66,8 @@ def num(value):
 # hours, a day)
 MILLISECONDS = st.one_of(
     st.integers(0, 20000), st.integers(0, 20000),
-    st.sampled_from([65535, 65536, 65537, 90000, 600000, 3600000, 86400000]),
+    st.sampled_from([65535, 65536, 65537, 90000, 600000, 3600000, 86400000,
+                     4294967295, 4294967296, 6 * 10 ** 9]),
     st.integers(0, 10 ** 8))
 
 
